@@ -25,6 +25,11 @@ def search(expand, init_key, max_depth, seed=0, max_states=None):
         res = common.pmap(expand, frontier, chunk=1 if len(frontier) < 64 else None)
         nxt = []
         for hist, r in zip(frontier, res):
+            if isinstance(r, common.Crashed):
+                viols.append({"subcheck": "interpreter_crash", "case": {"hist": hist}, "observed": r.get("reason"),
+                              "expected": "every operation returns or raises", "finding": None,
+                              "what": "while expanding the state reached by %r: %s" % (hist, r.get("reason"))})
+                continue
             for k, v in r.get("cnt", {}).items():
                 cnts[k] = cnts.get(k, 0) + v
             viols.extend(r.get("viol", []))
